@@ -202,7 +202,10 @@ KINDS = [
     (lambda fn: "*", False, False),           # '*' does not cross the dot
     (lambda fn: "other.**", False, False),    # unrelated
     (lambda fn: "mod.?" + fn[4:], False, False),  # one char too many
+    (lambda fn: "mod?" + fn[4:], False, True),    # '?' is any one character, the dot included
+    (lambda fn: "m[!x]d[.]" + fn[4:], False, True),   # brackets, one of them listing the dot
 ]
+NKINDS = len(KINDS)
 STYLES = ["%s:%s", " %s : %s ", "%s:%s"]
 MAXR = tier(3, 4)
 
@@ -249,7 +252,7 @@ def run_privacy(shape, rules, style):
     parts=lambda: [[s, k] for s in range(len(SHAPES) if THOROUGH else 5) for k in range(-1, len(KINDS))],
     timeout=(200, 1800), cls="F", tracing="concrete-after-choice", twin="first",
     code=["pydoctor.model.System.privacyClass", "pydoctor.model.Documentable.privacyClass/isPrivate", "pydoctor.utils.parse_privacy_tuple", "pydoctor.qnmatch.qnmatch (concrete patterns)"],
-    bounds={"quick": "rule lists of <= 3 rules; each rule: privacy in {HIDDEN, PRIVATE, PUBLIC} x 6 pattern kinds (exact name, '**', 'mod.*', '*', 'other.**', one-char-too-long '?'); 5 name shapes (x, _x, __x__, __x, _x__); 3 spellings of the rule string (chosen by the list)",
+    bounds={"quick": "rule lists of <= 3 rules; each rule: privacy in {HIDDEN, PRIVATE, PUBLIC} x 8 pattern kinds (exact name, '**', 'mod.*', '*', 'other.**', one-char-too-long '?', '?' standing for the dot, brackets incl. '[.]'); 5 name shapes (x, _x, __x__, __x, _x__); 3 spellings of the rule string (chosen by the list)",
             "thorough": "same with <= 4 rules and 8 name shapes (adds _x__, x_, __init__, _)"},
     outside="rule lists longer than the bound; cache behaviour across changes of the option list (cache is per name by design)",
 )
@@ -257,7 +260,7 @@ def h_privacy_rules(n: int, p1: int, k1: int, p2: int, k2: int, p3: int, k3: int
     """
     pre: 0 <= n <= MAXR - 1
     pre: 0 <= p0 <= 2 and 0 <= p1 <= 2 and 0 <= p2 <= 2 and 0 <= p3 <= 2
-    pre: 0 <= k1 <= 5 and 0 <= k2 <= 5 and 0 <= k3 <= 5
+    pre: 0 <= k1 < NKINDS and 0 <= k2 < NKINDS and 0 <= k3 < NKINDS
     pre: (n >= 1 or (p1 == 0 and k1 == 0)) and (n >= 2 or (p2 == 0 and k2 == 0)) and (n >= 3 or (p3 == 0 and k3 == 0))
     post: _
     """
@@ -269,7 +272,7 @@ def h_privacy_rules(n: int, p1: int, k1: int, p2: int, k2: int, p3: int, k3: int
     elif n > 0 or p0 != 0:
         return True        # the empty rule list is the k0 == -1, n == 0, p0 == 0 case only
     ps = [pick(p1, 0, 2), pick(p2, 0, 2), pick(p3, 0, 2)]
-    ks = [pick(k1, 0, 5), pick(k2, 0, 5), pick(k3, 0, 5)]
+    ks = [pick(k1, 0, NKINDS - 1), pick(k2, 0, NKINDS - 1), pick(k3, 0, NKINDS - 1)]
     for i in range(n):
         rules.append((PRIVS[ps[i]], ks[i]))
     style = (n + sum(ps[:n]) + sum(ks[:n])) % 3      # spelling of the rule strings varies with the list
